@@ -2,9 +2,7 @@ SPECIFICATION TraceSpec
 CONSTANTS
   ChanSeq <- TraceChanSeq
   MaxLen = 4
-  Kinds = {"msg"}
-  Apis = {"reader"}
-  PageSizes = {1}
+  Cfgs <- TraceCfgs
   BadVariants = {"trunc", "dropLast", "dropLastFix", "swapFix", "hwLowFix", "otherSlot"}
   MaxAppends = 1000000
   MaxAttempts = 1000000
